@@ -293,3 +293,22 @@ Section Statements.
     unfold keys in O4. rewrite map_length in O4. rewrite <- O4 in O6. auto 10.
   Qed.
 End Statements.
+
+(* what a tree shows depends only on the ordered map its history denotes: neither on the history that
+   built it, nor on the shape the rebalancing left, nor on the successor/predecessor choice of Tree_Rem *)
+Theorem history_independent_total : forall (K V : Type) (cmp : K -> K -> comparison) (us1 us2 : bool -> bool -> bool),
+  total_order cmp -> forall ops1 ops2 : list (op K V),
+  spec_run K V cmp ops1 [] = spec_run K V cmp ops2 [] ->
+  let t1 := t_run K V cmp us1 ops1 (t_empty K V) in
+  let t2 := t_run K V cmp us2 ops2 (t_empty K V) in
+  nitems K V t1 = nitems K V t2 /\
+  iter_forward K V t1 = iter_forward K V t2 /\
+  iter_backward K V t1 = iter_backward K V t2 /\
+  (forall k, lookup K V cmp (root K V t1) k = lookup K V cmp (root K V t2) k).
+Proof.
+  intros K V cmp us1 us2 Ht ops1 ops2 E t1 t2.
+  destruct (history_observations_total K V cmp us1 Ht ops1) as (A1 & A2 & A3 & _ & A5 & _).
+  destruct (history_observations_total K V cmp us2 Ht ops2) as (B1 & B2 & B3 & _ & B5 & _).
+  fold t1 in A1, A2, A3, A5. fold t2 in B1, B2, B3, B5. rewrite <- E in B1, B2, B3, B5.
+  repeat split; try congruence.
+Qed.
